@@ -393,6 +393,24 @@ inline std::vector<std::string> dictDistributions()
           out.push_back(render(i, v, false));
     }
   }
+  // every item of every list argument of Simple replaced in turn by an empty / blanks-only / bracket-less / odd item
+  {
+    static const std::vector<std::string> odd = {"", " ", "  ", "\t", "V1", "V1[", "V1]", "[0;9]", "V1[0;9]", "V1[;]", "V1[0]", "V[0;9]", " V1[0;9] ", "1", " 1 ", "x", "()", "V2[0;9"};
+    for (size_t n = 1; n <= 3; ++n)
+      for (size_t pos = 0; pos < n; ++pos)
+        for (const auto& o : odd)
+          for (int which = 0; which < 3; ++which)
+          {
+            std::string lists[3];
+            for (size_t i = 0; i < n; ++i)
+            {
+              std::string item[3] = {std::to_string(i + 1), n == 1 ? "1" : (n == 2 ? "0.5" : (i == 2 ? "0.5" : "0.25")), "V" + std::to_string(i + 1) + "[0;9]"};
+              for (int w = 0; w < 3; ++w) lists[w] += (i ? "," : "") + ((w == which && i == pos) ? o : item[w]);
+            }
+            out.push_back("Simple(values=(" + lists[0] + "),probas=(" + lists[1] + "),ranges=(" + lists[2] + "))");
+            if (which == 2 && pos + 1 == n) out.push_back("Simple(values=(" + lists[0] + "),probas=(" + lists[1] + "),ranges=(" + lists[2] + ", ))");
+          }
+  }
   // list-taking families with mutually consistent lists of length 0, 1, 2 (zero components, one component, ...),
   // alone and nested in Invariant / Mixture
   std::vector<std::string> cores;
